@@ -25,7 +25,7 @@ package main
 //	mupd <key> <val> <w>         Update on the source and on the imported trie -> <res> <res> <root> <w> <root> <w>
 //	mdel <key> / mupdel <key>    Delete / Update(nil) on both
 //
-// <storage ops> = the atomic storage operations the call produced (fmtEntries).
+// <storage ops> = the atomic storage operations the call produced (wmFmtEntries).
 
 import (
 	"bytes"
@@ -107,7 +107,7 @@ func (x *wrun) fail(i int, f string, a ...interface{}) {
 
 // failIn records an oracle failure; cover is the finding whose matcher accepts it ("" = none).
 func (x *wrun) failIn(cover string, i int, f string, a ...interface{}) {
-	msg := fmt.Sprintf("op %d (%s): ", i, clip(x.ops[i], 120)) + fmt.Sprintf(f, a...)
+	msg := fmt.Sprintf("op %d (%s): ", i, wmClip(x.ops[i], 120)) + fmt.Sprintf(f, a...)
 	if cover != "" {
 		msg = "[" + cover + "] " + msg
 		if x.res.Finding == "" {
@@ -121,7 +121,7 @@ func (x *wrun) failIn(cover string, i int, f string, a ...interface{}) {
 	}
 }
 
-func clip(s string, n int) string {
+func wmClip(s string, n int) string {
 	if len(s) > n {
 		return s[:n] + "…"
 	}
@@ -287,7 +287,7 @@ func (x *wrun) step(i int, f []string) string {
 			x.fail(i, "%s", m)
 		}
 		x.checkWeight(i)
-		return fmt.Sprintf("ok r=%x w=%d %s", root, x.cweight, fmtEntries(es))
+		return fmt.Sprintf("ok r=%x w=%d %s", root, x.cweight, wmFmtEntries(es))
 	case "gc":
 		from := x.st.logLen()
 		out := guard(func() string { return werr(x.t.DeleteNodes()) })
@@ -303,7 +303,7 @@ func (x *wrun) step(i int, f []string) string {
 		for _, m := range checkReopen("after the GC pass", x.st, x.croot, x.cweight, x.committed) {
 			x.fail(i, "%s", m)
 		}
-		return "ok " + fmtEntries(x.newEntries(from))
+		return "ok " + wmFmtEntries(x.newEntries(from))
 	case "reload":
 		x.t = openTrie(x.st, x.croot, x.cweight)
 		x.live = x.committed.clone()
@@ -500,7 +500,7 @@ func (x *wrun) opProof(i int, b uint64, slot int) string {
 	}
 	root := canonRootW(x.live, nil)
 	if !strings.HasPrefix(out, "ok") || string(key) != wantKey || !bytes.Equal(h, root) || !bytes.Equal(v, x.live[wantKey].val) {
-		x.fail(i, "honest proof of block %d: got %q, want owner %x root %x value %x", b, clip(out, 300), wantKey, root, x.live[wantKey].val)
+		x.fail(i, "honest proof of block %d: got %q, want owner %x root %x value %x", b, wmClip(out, 300), wantKey, root, x.live[wantKey].val)
 	} else {
 		x.slots[slot] = &wslot{proof: proof, block: b, root: root, content: x.live.clone()}
 		x.tags["proof-ok"] = true
@@ -560,7 +560,7 @@ func (x *wrun) opRollback(i int, kind string) string {
 	x.dirty, x.hashedDirty = false, false
 	x.lastPuts = map[string]bool{}
 	x.durable = append(x.durable, wdurable{x.st.logLen(), x.croot, x.cweight, x.committed})
-	return fmt.Sprintf("ok r=%x w=%d %s", root, weight, fmtEntries(es))
+	return fmt.Sprintf("ok r=%x w=%d %s", root, weight, wmFmtEntries(es))
 }
 
 func (x *wrun) opMirror(i int, f []string) string {
